@@ -145,10 +145,12 @@ def _jit(f, **kw):
 
 
 def _scan(f, init, xs):
-    carry = init
+    # lax.scan traces its body on a *copy* of the carry (flattened and rebuilt): what the body does to the carry's containers in place
+    # (e.g. EpochState.advance_time) never reaches the caller's objects -- only the returned carry does
+    carry = _realjax.tree_util.tree_map(lambda x: x, init)
     ys = []
     for x in xs:
-        carry, y = f(carry, x)
+        carry, y = f(_realjax.tree_util.tree_map(lambda x_: x_, carry), x)
         ys.append(y)
     if not ys:
         raise RuntimeError("empty scan")
